@@ -160,7 +160,7 @@ Lemma wstep_rows r c sh w sh' w' :
 Proof.
   unfold wstep, app_cnt, store_cnt. intros H.
   destruct (w_pc w) eqn:Hpc.
-  - (* PIdle *) destruct (w_todo w); inversion H; subst; simpl; rewrite ?Hpc; simpl; lia.
+  - (* PIdle *) destruct (w_todo w) as [|b0 r0]; [|destruct (b_rows b0)]; inversion H; subst; simpl; rewrite ?Hpc; simpl; lia.
   - (* PLock *)
     destruct (negb (buf_compatible (sh_buf sh) b)).
     + pinv H. rewrite inflight_w_after, inflight_begin_flush.
@@ -193,7 +193,8 @@ Lemma wstep_acc r c sh w sh' w' :
 Proof.
   unfold wstep, app_cnt. intros H.
   destruct (w_pc w) eqn:Hpc.
-  - destruct (w_todo w); pinv H; unfold w_acc; simpl; rewrite ?Hpc; simpl; lia.
+  - destruct (w_todo w) as [|b0 r0]; [|destruct (b_rows b0) eqn:Hb0]; pinv H; unfold w_acc; simpl;
+      rewrite ?Hpc, ?res_rows_snoc, ?cnt_app, ?Hb0; simpl; lia.
   - destruct (negb (buf_compatible (sh_buf sh) b)).
     + pinv H. rewrite w_acc_after, own_begin_flush. unfold w_acc. rewrite Hpc. simpl. lia.
     + destruct (cf_max_bytes c <? bf_bytes (sh_buf sh) + b_size b)%N.
@@ -362,7 +363,7 @@ Lemma wstep_frame c sh w sh' w' :
   \/ (same_store sh sh' /\ pc_nochunk (w_pc w) /\ pc_nochunk (w_pc w')).
 Proof.
   unfold wstep. intros H. destruct (w_pc w) eqn:Hpc.
-  - right. destruct (w_todo w); pinv H; rewrite ?Hpc; simpl; auto using same_store_refl.
+  - right. destruct (w_todo w) as [|b0 r0]; [|destruct (b_rows b0)]; pinv H; rewrite ?Hpc; simpl; auto using same_store_refl.
   - right. destruct (negb (buf_compatible (sh_buf sh) b)).
     + pinv H. split; [repeat split|]. split; [exact I|apply nochunk_w_after_begin].
     + destruct (cf_max_bytes c <? bf_bytes (sh_buf sh) + b_size b)%N.
@@ -803,7 +804,7 @@ Lemma wstep_buf_ok c sh w sh' w' : wstep c sh w = (sh', w') -> buf_ok (sh_buf sh
 Proof.
   unfold wstep. intros H Hok. destruct (w_pc w) eqn:Hpc;
     try (cbn [flush_step] in H; pinv H; simpl; exact Hok).
-  - destruct (w_todo w); pinv H; exact Hok.
+  - destruct (w_todo w) as [|b0 r0]; [|destruct (b_rows b0)]; pinv H; exact Hok.
   - destruct (negb (buf_compatible (sh_buf sh) b)); [pinv H; apply buf_ok_empty|].
     destruct (cf_max_bytes c <? bf_bytes (sh_buf sh) + b_size b)%N; [pinv H; exact Hok|].
     destruct (should_flush c (buf_append (sh_buf sh) b)); pinv H; simpl;
